@@ -79,11 +79,27 @@ pub fn judge_str(s: &str) -> (bool, Option<Fail>) {
 /// when `s` is a case variant of T's name (for `s` free of the characters that end the type
 /// position).
 pub fn judge_in_purl(s: &str) -> Option<Fail> {
-    if s.contains(['/', '?', '#']) {
+    if s.contains(['?', '#']) {
         return None;
     }
+    // the type position is what stands between `pkg:` (and any slashes after it) and the next
+    // '/': for `s` with slashes inside, its first non-empty piece
     let text = format!("pkg:{s}/n");
     let got = guard("Purl::from_str", || Purl::from_str(&text));
+    let s_full = s;
+    let s = s.trim_start_matches('/').split('/').next().unwrap_or("");
+    if s_full.contains('/') {
+        // only the converse clause: whatever is accepted has a case variant of the name there
+        return match got {
+            Out::Panic(m) => Some(Fail::tagged("panicked", m.clone(), format!("Purl::from_str({text:?}) panicked: {m}"))),
+            Out::Ok(Ok(p)) if r8(*p.package_type()) != ascii_lower(s) => Some(Fail::tagged(
+                "foreign-string-accepted-in-purl",
+                r8(*p.package_type()),
+                format!("{text:?} is taken for a {:?} PURL although its type position holds {s:?}", p.package_type()),
+            )),
+            _ => None,
+        };
+    }
     let expected = ALL_TYPES.iter().copied().find(|t| r8(*t) == ascii_lower(s));
     match (got, expected) {
         (Out::Panic(m), _) => Some(Fail::tagged("panicked", m.clone(), format!("Purl::from_str({text:?}) panicked: {m}"))),
@@ -375,6 +391,24 @@ pub fn run(ctx: &mut Ctx) {
                     one(ctx, &format!("{n}{sep}{}", r8(u)), "joined-names", false);
                     one(ctx, &format!("{n}{sep}{}{sep}{n}", r8(u)), "joined-names", false);
                     one(ctx, &format!("{sep}{n}{sep}"), "joined-names", false);
+                }
+            }
+        }
+        // names behind something a tolerant parser might skip: relative-reference prefixes,
+        // authority-like prefixes, doubled schemes, dictionary tokens, with and without
+        // leading slashes
+        let mut prefixes: Vec<String> = [".", "..", "./", "../", "././", "x@", "user:pw@", "@", ":", "::", "pkg:", "pkg:/", "pkg://", "PKG:", "%2E/", "%2e%2e/", "~/", "-/", "+/", "a/", "/a/", "\\", "localhost/", ":8080/"]
+            .iter()
+            .map(|x| x.to_string())
+            .collect();
+        prefixes.extend(gen::DICTIONARY.iter().map(|t| t.to_string()));
+        for t in ALL_TYPES {
+            let n = r8(t);
+            for pre in &prefixes {
+                for lead in ["", "/", "//", "///"] {
+                    for form in [format!("{lead}{pre}{n}"), format!("{lead}{pre}/{n}"), format!("{lead}{}{pre}", n.to_uppercase()), format!("{lead}{pre}{n}/{n}")] {
+                        one(ctx, &form, "prefixed-forms", false);
+                    }
                 }
             }
         }
